@@ -71,6 +71,7 @@ YAML = '''statechart:
         action: |
           x = x + 10
           send('out', v=x, w=x + 1)
+          send('out', v=x + 3, w=x + 11)
     - name: C
       transitions:
       - target: A
